@@ -451,7 +451,8 @@ func colorExec(line string) h.Result {
 			if !canonical {
 				res.Tags = append(res.Tags, "conv:rgb-with-extra-bits(out of statement)")
 			}
-			if css != want || (canonical && tcell.GetColor(css) != tc) {
+			// the statement asks for an exact round trip, not for a letter case: compare the text case-insensitively
+			if !strings.EqualFold(css, want) || (canonical && tcell.GetColor(css) != tc) {
 				add("css-roundtrip", "colour %d (hex %#x): CSS()=%q (want %q), GetColor(CSS())=%d, TrueColor()=%d", uint64(c), hx, css, want, uint64(tcell.GetColor(css)), uint64(tc))
 			}
 		}
